@@ -48,6 +48,8 @@ def common_depth(a, b):
 
 
 def is_trigger_input(t, attr, any_inputs):
+    if any_inputs == "child":      # the destination is the child entity of model K (roles swapped)
+        return attr == "mi"
     if t == "T":
         return False
     if t == "E":
@@ -59,10 +61,10 @@ def must_raise(st, dt, sg, dg, sa, da, shift, weak, init, any_inputs):
     reasons = []
     if sa not in ATTRS[st]:
         reasons.append("src-attr")
-    if da not in ATTRS[dt] and not any_inputs:
+    if da not in ATTRS[dt] and any_inputs is not True:
         reasons.append("dst-attr")
     if (shift or weak) and not init:
-        valid_in = da in ATTRS[dt] or any_inputs
+        valid_in = da in ATTRS[dt] or any_inputs is True
         if valid_in and not is_trigger_input(dt, da, any_inputs):
             reasons.append("needs-initial-data")
     if weak and common_depth(sg, dg) < 2:
@@ -80,7 +82,8 @@ def snapshot(world):
 def make_world(st, dt, sg, dg, any_inputs, cache=True):
     scen = dict(until=1, groups=GROUPS,
                 sims=[dict(sid="S", type=TYPES[st], group=sg),
-                      dict(sid="D", type=TYPES[dt], group=dg, any_inputs=any_inputs)],
+                      dict(sid="D", type=TYPES[dt], group=dg, any_inputs=(any_inputs is True),
+                           child=(any_inputs == "child"))],
                 conns=[])
     r = Run(scen, dict(gates=(), cache=cache), None)
     from . import stubs
@@ -117,7 +120,10 @@ def do_connect(r, pairs, shift, weak, init):
     try:
         with warnings.catch_warnings():
             warnings.simplefilter("ignore")
-            r.world.connect(r.ents["S"], r.ents["D"], *pairs, **kw)
+            dst = r.ents["D"]
+            if r.scen["sims"][1].get("child"):
+                dst = dst.children[0]
+            r.world.connect(r.ents["S"], dst, *pairs, **kw)
         return None
     except ScenarioError as e:
         return ("ScenarioError", str(e)[:200])
@@ -274,6 +280,8 @@ def check(prop, tier):
     combos = [(st, dt, sg, dg, ai, cache)
               for st in "TEH" for dt in "TEH" for sg in PLACES for dg in PLACES
               for ai in (False, True) for cache in ((True, False) if tier == "thorough" else (True,))]
+    # destination = child entity of another model (hierarchical entities), hybrid destinations
+    combos += [(st, "H", sg, dg, "child", True) for st in "TEH" for sg in (None, "g") for dg in (None, "g", "g2")]
     if tier == "quick":
         # cache=False on the combos where it changes the code path (persistent source)
         combos += [(st, dt, sg, dg, False, False) for st in "TH" for dt in "TEH"
